@@ -120,7 +120,7 @@ def main(mod, argv=None):
     capped = False
     if args.limit:
         cases, capped = cases[:args.limit], True
-    n_states = n_trans = n_errors = 0
+    n_states = n_trans = n_errors = n_cases = 0
     outcomes = set()
     by_key = {}
     notes = {}
@@ -128,7 +128,8 @@ def main(mod, argv=None):
     harness_errors = []
     slow = []
     for res in explore(mod, cases, seed, args.tier, args.jobs):
-        n_states += 1
+        n_states += int(res.get("states", 1))
+        n_cases += 1
         n_trans += int(res.get("transitions", 0))
         oc = res.get("outcome")
         if isinstance(oc, (list, tuple)):
@@ -155,7 +156,7 @@ def main(mod, argv=None):
             ent["count"] += 1
             if ent["first"] is None:
                 ent["first"] = {"case": res["case"], **v}
-        if len(samples) < 4 and (n_states in (1, 2) or n_states == len(cases) // 2 or n_states == len(cases)):
+        if len(samples) < 4 and (n_cases in (1, 2) or n_cases == len(cases) // 2 or n_cases == len(cases)):
             samples.append({"case": res["case"], "transitions": res.get("transitions"), "outcome":
                             oc if not isinstance(oc, (list, tuple)) else list(oc)[:3],
                             "sample_obs": res.get("sample_obs")})
@@ -197,6 +198,7 @@ def main(mod, argv=None):
         "states": max(n_states, 1),
         "transitions": max(n_trans, 1),
         "traces_validated_against_impl": n_states,
+        "work_items": n_cases,
         "samples": samples or [{"note": "no cases"}],
         "exhaustive": bool(exhaustive),
         "distinct_outcomes": len(outcomes),
